@@ -196,6 +196,59 @@ func c01InPlace(key, nonce, pt, ad, want, prefix []byte, roomy bool, off int) er
 	return nil
 }
 
+// c01Guarded runs Seal and Open with plaintext, additional data, ciphertext
+// and output placed directly against inaccessible pages (at the end of the
+// mapping when atEnd, else at its start): a read or write beyond the slices
+// faults.  Results must still be the RFC 8439 values.
+func c01Guarded(key, nonce, pt, ad, want []byte, atEnd bool) error {
+	gs, err := guards(3, 80000)
+	if err != nil {
+		return nil // no guard pages on this platform: nothing to check (recorded as an assumption by the caller)
+	}
+	a := newAEAD(key, len(nonce))
+	where := map[bool]string{true: "ending at an inaccessible page", false: "starting right after an inaccessible page"}[atEnd]
+	ptg, adg := gs[0].place(pt, atEnd), gs[1].place(ad, atEnd)
+	var out []byte
+	if atEnd {
+		out = gs[2].tail(len(want))[:0]
+	} else {
+		out = gs[2].head(len(want))[:0]
+	}
+	var sealed []byte
+	if e := catchFault(func() { sealed = a.Seal(out, nonce, ptg, adg) }); e != nil {
+		return fmt.Errorf("Seal with plaintext/AD/output buffers %s: %v", where, e)
+	}
+	if !bytes.Equal(sealed, want) {
+		return fmt.Errorf("Seal with buffers %s differs from the RFC 8439 value", where)
+	}
+	// Open: ciphertext in arena 0, output in arena 2
+	ctg := gs[0].place(want, atEnd)
+	if atEnd {
+		out = gs[2].tail(len(pt))[:0]
+	} else {
+		out = gs[2].head(len(pt))[:0]
+	}
+	var opened []byte
+	var oerr error
+	if e := catchFault(func() { opened, oerr = a.Open(out, nonce, ctg, adg) }); e != nil {
+		return fmt.Errorf("Open with ciphertext/AD/output buffers %s: %v", where, e)
+	}
+	if oerr != nil || !bytes.Equal(opened, pt) {
+		return fmt.Errorf("Open with buffers %s: err=%v, plaintext equal=%v", where, oerr, bytes.Equal(opened, pt))
+	}
+	// a forged tag must be rejected without touching memory outside the buffers either
+	if len(ctg) > 0 {
+		ctg[len(ctg)-1] ^= 0x40
+		if e := catchFault(func() { opened, oerr = a.Open(out, nonce, ctg, adg) }); e != nil {
+			return fmt.Errorf("failing Open with buffers %s: %v", where, e)
+		}
+		if oerr == nil {
+			return fmt.Errorf("Open accepted a modified tag (buffers %s)", where)
+		}
+	}
+	return nil
+}
+
 // pat is a deterministic byte pattern for the enumerated part (no RNG).
 func pat(seed uint64, n int) []byte {
 	out := make([]byte, n)
@@ -224,6 +277,11 @@ func TestC01(t *testing.T) {
 	}
 	if len(paths) == 1 && !purego() {
 		c.Assumption("assembly path not available in this process: " + paths[0].name)
+	}
+	if _, err := guards(3, 80000); err != nil {
+		c.Assumption("guard pages unavailable (" + err.Error() + "): out-of-bounds reads are not observable")
+	} else {
+		c.Oracle("guard pages: buffers placed against PROT_NONE pages so that any access outside the slices faults")
 	}
 	bounds, fromFile := asmLengthBounds()
 	if !fromFile {
@@ -254,6 +312,7 @@ func TestC01(t *testing.T) {
 			ipPrefix = gen.RandBytes(rt, "inplacePrefixBytes", rapid.IntRange(1, 40).Draw(rt, "inplacePrefixLen"))
 			ipClass = "inplace:dst=buf[:k],pt=buf[k:]"
 		}
+		guardAtEnd := rapid.IntRange(0, 3).Draw(rt, "guardAtEnd") > 0
 		ipRoomy := rapid.IntRange(0, 3).Draw(rt, "inplaceRoomy") > 0
 		if !ipRoomy {
 			ipClass += "(Seal reallocates)"
@@ -270,6 +329,9 @@ func TestC01(t *testing.T) {
 			err := c01One(key, nonce, pt, ad, want, sd, od, srcOff)
 			if err == nil {
 				err = c01InPlace(key, nonce, pt, ad, want, ipPrefix, ipRoomy, srcOff)
+			}
+			if err == nil {
+				err = c01Guarded(key, nonce, pt, ad, want, guardAtEnd)
 			}
 			restore()
 			if err != nil {
@@ -315,6 +377,12 @@ func TestC01(t *testing.T) {
 				}
 				if err == nil {
 					err = c01InPlace(key, nonce, pt, ad, want, pat(seed+6, 1+n%7), n%4 != 0, (n*3)%32)
+				}
+				if err == nil {
+					err = c01Guarded(key, nonce, pt, ad, want, true)
+				}
+				if err == nil && n%3 == 0 {
+					err = c01Guarded(key, nonce, pt, ad, want, false)
 				}
 				restore()
 				if err != nil {
